@@ -8,14 +8,22 @@ import (
 // New returns a new Topic
 func New[T any]() *Topic[T] {
 	return &Topic[T]{
-		subscribers: make(map[subscriptionID]chan<- T),
+		subscribers: make(map[subscriptionID]subscriber[T]),
 	}
+}
+
+// subscriber is the publishing side of a Subscription.
+type subscriber[T any] struct {
+	ch chan<- T
+	// closing is closed when the Subscription starts to close, so that a
+	// Publish that is blocked on sending to it gives up on this subscriber.
+	closing <-chan struct{}
 }
 
 // NewWithInitial returns a new Topic that is pre-seeded with a last value.
 func NewWithInitial[T any](v T) *Topic[T] {
 	return &Topic[T]{
-		subscribers: make(map[subscriptionID]chan<- T),
+		subscribers: make(map[subscriptionID]subscriber[T]),
 		last:        v,
 		hasLast:     true,
 	}
@@ -24,7 +32,7 @@ func NewWithInitial[T any](v T) *Topic[T] {
 // Topic is a single topic that subscribers can Subscribe() to
 type Topic[T any] struct {
 	mu          sync.Mutex
-	subscribers map[subscriptionID]chan<- T
+	subscribers map[subscriptionID]subscriber[T]
 	lastID      subscriptionID
 	last        T
 	hasLast     bool
@@ -37,8 +45,13 @@ func (t *Topic[T]) Publish(v T) {
 
 	t.last = v
 	t.hasLast = true
-	for _, ch := range t.subscribers {
-		ch <- v // blocking
+	for _, sub := range t.subscribers {
+		select {
+		case sub.ch <- v: // blocking
+		case <-sub.closing:
+			// The subscriber is closing its subscription and is waiting for
+			// our lock to unsubscribe: it will not receive this value.
+		}
 	}
 }
 
@@ -73,7 +86,8 @@ func (t *Topic[T]) Subscribe(sendLast bool) *Subscription[T] {
 	t.lastID++
 	id := t.lastID
 
-	t.subscribers[id] = ch
+	closing := make(chan struct{})
+	t.subscribers[id] = subscriber[T]{ch: ch, closing: closing}
 
 	if sendLast && t.hasLast {
 		// Will not block, because the channel is buffered and nothing
@@ -82,9 +96,10 @@ func (t *Topic[T]) Subscribe(sendLast bool) *Subscription[T] {
 	}
 
 	sub := &Subscription[T]{
-		id:    id,
-		topic: t,
-		ch:    ch,
+		id:      id,
+		topic:   t,
+		ch:      ch,
+		closing: closing,
 	}
 	return sub
 }
@@ -112,10 +127,10 @@ func (t *Topic[T]) unsubscribeID(id subscriptionID) {
 	t.mu.Lock()
 	defer t.mu.Unlock()
 
-	ch, exists := t.subscribers[id]
+	sub, exists := t.subscribers[id]
 	if !exists {
 		return
 	}
-	close(ch)
+	close(sub.ch)
 	delete(t.subscribers, id)
 }
